@@ -70,24 +70,25 @@ type Input struct {
 
 // Runner drives one client.
 type Runner struct {
-	Sink        ribdrv.Sink
-	c           *client.Client
-	stub        *stubs.Client
-	strm        *stubs.ModifyStream
-	cfg         Input
-	nrecv       int // responses/faults delivered on the current stream
-	wantTx      int // messages expected on the current stream so far (sent + failed)
-	dead        bool
-	Steps       int
-	GateMissing int
-	Hangs       int
-	base        int // goroutines before the client was created
-	isSending   bool
-	lastSnaps   []any
-	recvDead    bool
-	snd         string // mirror of the sender goroutine: alive | lastone | dead
-	wantCalls   int    // Send calls expected on the current stream
-	queued      int    // messages queued before StartSending
+	Sink           ribdrv.Sink
+	c              *client.Client
+	stub           *stubs.Client
+	strm           *stubs.ModifyStream
+	cfg            Input
+	nrecv          int // responses/faults delivered on the current stream
+	wantTx         int // messages expected on the current stream so far (sent + failed)
+	dead           bool
+	Steps          int
+	GateMissing    int
+	SettleTimeouts int
+	Hangs          int
+	base           int // goroutines before the client was created
+	isSending      bool
+	lastSnaps      []any
+	recvDead       bool
+	snd            string // mirror of the sender goroutine: alive | lastone | dead
+	wantCalls      int    // Send calls expected on the current stream
+	queued         int    // messages queued before StartSending
 }
 
 // waitRecv waits until the receiver has consumed what was just delivered: it
@@ -281,6 +282,22 @@ func (rn *Runner) state() map[string]any {
 }
 
 // clientGoroutines counts goroutines currently executing inside the client package.
+// blockedInQ counts the goroutines blocked inside Client.Q (waiting to hand a message to the sender).
+func blockedInQ() int {
+	buf := make([]byte, 1<<21)
+	buf = buf[:runtime.Stack(buf, true)]
+	n := 0
+	for _, g := range strings.Split(string(buf), "\n\n") {
+		if !strings.Contains(g, "gribigo/client.(*Client).Q") {
+			continue
+		}
+		if hdr, _, _ := strings.Cut(g, "\n"); strings.Contains(hdr, "select") || strings.Contains(hdr, "chan send") {
+			n++
+		}
+	}
+	return n
+}
+
 func clientGoroutines() int {
 	buf := make([]byte, 1<<21)
 	buf = buf[:runtime.Stack(buf, true)]
@@ -319,9 +336,13 @@ func (rn *Runner) settle() {
 	if rn.strm == nil {
 		return
 	}
-	deadline := time.Now().Add(time.Second)
-	for time.Now().Before(deadline) {
+	deadline := time.Now().Add(limit)
+	for {
 		if rn.strm.SendCalls() >= rn.wantCalls {
+			break
+		}
+		if !time.Now().Before(deadline) {
+			rn.SettleTimeouts++
 			break
 		}
 		time.Sleep(30 * time.Microsecond)
@@ -330,8 +351,12 @@ func (rn *Runner) settle() {
 		rn.snd = "dead"
 		// the send error is recorded right after Send returns; the broken stream
 		// then fails the receiver too
-		for i := 0; i < 400; i++ {
+		for dl := time.Now().Add(limit); ; {
 			if cs, _ := rn.c.Status(); cs != nil && len(cs.SendErrs) > 0 && (rn.recvDead || len(cs.ReadErrs) > 0) {
+				break
+			}
+			if !time.Now().Before(dl) {
+				rn.SettleTimeouts++
 				break
 			}
 			time.Sleep(50 * time.Microsecond)
@@ -422,10 +447,14 @@ func (rn *Runner) Step(in Input) error {
 		aliveBefore := rn.snd != "dead" && !rn.strm.SendFailed()
 		rn.strm.SetGate(gate)
 		returned := make(chan int, len(in.Ms))
+		var nret atomic.Int32
 		for i := range in.Ms {
 			m := concMsg(&in.Ms[i])
-			go func(i int) { rn.c.Q(m); returned <- i }(i)
-			time.Sleep(3 * time.Millisecond) // let it reach the channel (or block) before the next one
+			go func(i int) { rn.c.Q(m); nret.Add(1); returned <- i }(i)
+			// the next Q starts only when this one has returned or is blocked handing its message to the sender
+			for dl := time.Now().Add(5 * time.Second); time.Now().Before(dl) && int(nret.Load())+blockedInQ() < i+1; {
+				time.Sleep(100 * time.Microsecond)
+			}
 		}
 		rn.strm.FailSendsAfter(0, errors.New("rpc error: injected send failure"))
 		close(gate)
@@ -442,7 +471,7 @@ func (rn *Runner) Step(in Input) error {
 		}
 		if aliveBefore {
 			// the stuck Send now fails; wait for it
-			for dl := time.Now().Add(time.Second); time.Now().Before(dl) && rn.strm.SendCalls() == calls0; {
+			for dl := time.Now().Add(limit); time.Now().Before(dl) && rn.strm.SendCalls() == calls0; {
 				time.Sleep(30 * time.Microsecond)
 			}
 		}
@@ -640,6 +669,16 @@ func (rn *Runner) Step(in Input) error {
 			rn.hang("await")
 			return nil
 		}
+		if cs, _ := rn.c.Status(); err != nil && errors.Is(err, context.DeadlineExceeded) && cs != nil && len(cs.PendingTransactions) == 0 && rn.queued == 0 && rn.isSending {
+			// nothing is pending: the deadline may have passed only because the machine is busy - ask again, patiently
+			ctx, cancel := context.WithTimeout(context.Background(), 5*time.Second)
+			ok = timed(func() { err = rn.c.AwaitConverged(ctx) })
+			cancel()
+			if !ok {
+				rn.hang("await")
+				return nil
+			}
+		}
 		res := "ok"
 		var ce *client.ClientErr
 		switch {
@@ -667,8 +706,10 @@ func (rn *Runner) Step(in Input) error {
 			rn.hang(in.A)
 			return nil
 		}
-		time.Sleep(2 * time.Millisecond)
 		left := clientGoroutines() - rn.base
+		for dl := time.Now().Add(3 * time.Second); left > 0 && time.Now().Before(dl); left = clientGoroutines() - rn.base {
+			time.Sleep(time.Millisecond)
+		}
 		rn.Sink.Emit(Event{"ev": "c" + in.A, "done": done, "goroutines": left, "st": rn.state()})
 		rn.isSending, rn.wantTx, rn.queued, rn.snd = false, 0, 0, "dead"
 		if in.A == "close" {
